@@ -1803,9 +1803,13 @@ def _lincomb_impl(a, x1, b, x2, out):
         def fallback_axpy(x1, x2, n, a):
             """Fallback axpy implementation avoiding copy."""
             if a != 0:
-                x2 /= a
-                x2 += x1
-                x2 *= a
+                if is_floating_dtype(x2.dtype):
+                    x2 /= a
+                    x2 += x1
+                    x2 *= a
+                else:
+                    # In-place true division is not defined for integers
+                    np.add(x2, a * x1, out=x2, casting='unsafe')
             return x2
 
         def fallback_scal(a, x, n):
